@@ -1050,3 +1050,103 @@ struct Reference<S: Sample> {
     pub(crate) frame: Arc<IndexedFrame>,
     pub(crate) image: Arc<FrameRenderHandle<S>>,
 }
+
+/// Verification hooks (`--cfg jxl_oxide_verif`): add-only access to the per-frame render handle
+/// protocol for the out-of-tree harness crate. Nothing here is used by the library itself.
+#[cfg(jxl_oxide_verif)]
+pub mod verif {
+    use std::sync::Arc;
+    use std::sync::atomic::{AtomicU8, Ordering};
+
+    use super::*;
+    pub use crate::image::RenderedImage;
+    pub use crate::state::{FrameRender, FrameRenderHandle, RenderOp};
+
+    pub fn indexed_frame(frame: Frame, index: usize) -> IndexedFrame {
+        IndexedFrame::new(frame, index)
+    }
+
+    /// A handle without reference frames.
+    pub fn new_handle<S: Sample>(
+        frame: Arc<IndexedFrame>,
+        image_region: Region,
+        render_op: RenderOp<S>,
+    ) -> Arc<FrameRenderHandle<S>> {
+        Arc::new(FrameRenderHandle::new(
+            frame,
+            image_region,
+            render_op,
+            [None, None, None, None],
+        ))
+    }
+
+    pub fn empty_image(color_channels: usize) -> ImageWithRegion {
+        ImageWithRegion::new(color_channels, None)
+    }
+
+    pub fn set_state<S: Sample>(handle: &FrameRenderHandle<S>, state: FrameRender<S>) {
+        *handle.render.lock().unwrap() = state;
+    }
+
+    /// 0 None, 1 Rendering, 2 InProgress, 3 Done, 4 Blended, 5 Err, 6 ErrTaken
+    pub fn state_code<S: Sample>(handle: &FrameRenderHandle<S>) -> u8 {
+        match &*handle.render.lock().unwrap() {
+            FrameRender::None => 0,
+            FrameRender::Rendering => 1,
+            FrameRender::InProgress(_) => 2,
+            FrameRender::Done(_) => 3,
+            FrameRender::Blended(_) => 4,
+            FrameRender::Err(_) => 5,
+            FrameRender::ErrTaken => 6,
+        }
+    }
+
+    pub fn rendered_image<S: Sample>(handle: Arc<FrameRenderHandle<S>>) -> RenderedImage<S> {
+        RenderedImage::new(handle)
+    }
+
+    pub fn blend<S: Sample>(
+        image: &RenderedImage<S>,
+        oriented_image_region: Option<Region>,
+        pool: &JxlThreadPool,
+    ) -> Result<Arc<ImageWithRegion>> {
+        image.blend(oriented_image_region, pool)
+    }
+
+    pub fn try_take_blended<S: Sample>(image: &RenderedImage<S>) -> Option<ImageWithRegion> {
+        image.try_take_blended()
+    }
+
+    /// Outcome of the stand-ins below, chosen by the harness:
+    /// 0 = Ok(false) / Ok(()), 1 = Ok(true), 2 = Err.
+    pub static PREPROCESS_OUTCOME: AtomicU8 = AtomicU8::new(0);
+    pub static COMPOSITE_OUTCOME: AtomicU8 = AtomicU8::new(0);
+
+    /// Stand-in with the signature of `image::composite_preprocess`, to be installed by the
+    /// harness with `#[kani::stub]`: an arbitrary outcome of the real function.
+    pub fn composite_preprocess_outcome(
+        _frame: &IndexedFrame,
+        _grid: &mut ImageWithRegion,
+        _pool: &JxlThreadPool,
+    ) -> Result<bool> {
+        match PREPROCESS_OUTCOME.load(Ordering::Relaxed) {
+            0 => Ok(false),
+            1 => Ok(true),
+            _ => Err(Error::FailedReference),
+        }
+    }
+
+    /// Stand-in with the signature of `image::composite`.
+    pub fn composite_outcome<S: Sample>(
+        _frame: &IndexedFrame,
+        _grid: &mut ImageWithRegion,
+        _refs: [Option<Reference<S>>; 4],
+        _oriented_image_region: Region,
+        _pool: &JxlThreadPool,
+    ) -> Result<()> {
+        match COMPOSITE_OUTCOME.load(Ordering::Relaxed) {
+            0 => Ok(()),
+            _ => Err(Error::FailedReference),
+        }
+    }
+}
